@@ -2,8 +2,10 @@
 
 use crate::PropDef;
 
+pub mod c15;
 pub mod c16;
+pub mod c18;
 
 pub fn all() -> Vec<PropDef> {
-    vec![c16::def()]
+    vec![c15::def(), c16::def(), c18::def()]
 }
